@@ -55,6 +55,9 @@ func (r *fileRecorder) TargetSucceeded(l *label.Label, changed bool) {
 	r.add(Event{Kind: "Succeeded", Label: ls(l)})
 }
 func (r *fileRecorder) RunDone(err error) { r.add(Event{Kind: "RunDone", Err: es(err)}) }
+func (r *fileRecorder) Print(l *label.Label, line string) {
+	r.add(Event{Kind: "Print", Label: ls(l), Line: line})
+}
 
 // interruptChild is the whole life of the child process.
 func interruptChild() {
@@ -82,10 +85,14 @@ func interruptChild() {
 		os.Exit(4)
 	}
 	l, _ := label.Parse(*fChildTarget)
-	if err := proj.Run(l, nil); err != nil {
-		os.Exit(5) // the build failed before the point of death
+	err = proj.Run(l, nil)
+	for _, st := range be.steps {
+		rec.add(Event{Kind: "Step", Label: st})
 	}
-	os.Exit(0) // the point of death was not reached
+	if err != nil {
+		os.Exit(5) // the build failed (before the point of death, if there is one)
+	}
+	os.Exit(0) // the build completed (the point of death, if any, was not reached)
 }
 
 // interruptedBuild performs the operation; it returns nil when the point of death is not
@@ -154,4 +161,59 @@ func (x *searcher) interruptedBuild(s, n *State, o buildOpts) []*State {
 		}
 	}
 	return []*State{n}
+}
+
+// childBuild runs one ordinary build in a child process whose working directory is a
+// subdirectory of the project (what "dawn build" started from inside the tree is): nothing dawn
+// does may depend on the process's working directory. misc/ holds decoys with the names of the
+// project's declared outputs.
+func (x *searcher) childBuild(s *State, o buildOpts) *buildResult {
+	vj, _ := json.Marshal(s.V)
+	res := &buildResult{Executed: map[string]bool{}}
+	x.withRoot(func(root string) {
+		writeTree(root, s.files())
+		evf := filepath.Join(filepath.Dir(filepath.Clean(root)), "child-events.jsonl")
+		os.Remove(evf)
+		cmd := exec.Command(os.Args[0], "-prop", x.prop, "-child-root", root, "-child-target", o.Target, "-child-vars", string(vj), "-child-events", evf)
+		cmd.Dir = filepath.Join(root, o.ChildCwd)
+		out, err := cmd.CombinedOutput()
+		code := 0
+		if ee, ok := err.(*exec.ExitError); ok {
+			code = ee.ExitCode()
+		} else if err != nil {
+			code = -2
+		}
+		switch code {
+		case 0:
+		case 5:
+			res.RunErr = fmt.Errorf("build failed")
+		default:
+			res.LoadErr = fmt.Errorf("child exited with %d: %s", code, firstLine(string(out)))
+		}
+		res.After = readTree(root)
+		if b, err := os.ReadFile(evf); err == nil {
+			for _, line := range strings.Split(string(b), "\n") {
+				var e Event
+				if line == "" || json.Unmarshal([]byte(line), &e) != nil {
+					continue
+				}
+				if e.Kind == "Step" {
+					res.Steps = append(res.Steps, e.Label)
+					for _, t := range []string{tGen, tMid, tTop, tLeaf, tOther, tColon, tOtherAll} {
+						if bodyName(t) == e.Label {
+							res.Executed[t] = true
+						}
+					}
+					continue
+				}
+				if e.Kind == "RunDone" && res.RunErr != nil {
+					res.RunErr = fmt.Errorf("%s", e.Err)
+				}
+				res.Events = append(res.Events, e)
+			}
+		}
+		os.Remove(evf)
+	})
+	x.nBuilds.Add(1)
+	return res
 }
